@@ -227,6 +227,11 @@ def schedules(fam):
         out.append(S(fam, "resetwhileloading", [opn("c1"), tk('"t1"'), dict(sub("c1", "a"), **st), dict(reply("access", "a"), **st),
                                                 {"op": "reset", "res": [], "acc": ["a"], "settle": True}, dict(reply("get", "a"), **st),
                                                 dict(reply("get", "b"), **st), dict(reply("access", "a", out="deny"), **st), Q, ev("a", "custom"), Q]))
+        # a call is answered with a resource response for a resource whose subscribe request of the same connection is still
+        # waiting for its access answer: the data must wait for a verdict too (and a refusal leaves nothing behind)
+        out.append(S(fam, "resrespwhileaccess", [opn("c1"), tk('"t1"'), dict(sub("c1", "b"), **st), dict(reply("get", "b"), **st), call("a"),
+                                                 dict(reply("access", "a"), **st), dict(reply("call", "a", out="res", arg="b"), **st),
+                                                 dict(reply("access", "b", out="deny"), **st), dict(reply("access", "b", out="deny"), **st), Q, ev("b", "custom"), Q]))
         # a resource response whose resource is refused while its get is still outstanding: nothing is left subscribed
         out.append(S(fam, "deniedresresp", [opn("c1"), tk('"t1"'), call("a"), dict(reply("access", "a"), **st),
                                             dict(reply("call", "a", out="res", arg="c"), **st), dict(reply("access", "c", out="deny"), **st),
